@@ -60,15 +60,15 @@ class RecPlugin(Plugin):
             return tuple(self.eval(x, d) for x in e.elts)
         if isinstance(e, ast.BinOp):
             a, b = self.eval(e.left, d), self.eval(e.right, d)
-            pts = {"G", "D", "St"}
-            dus = {"Z", "E", "M"}
+            pts = {"G", "Gs", "Ge", "D", "St"}
+            dus = {"Z", "Zt", "E", "M"}
             if a in pts and b in pts:
                 return "E"               # point - point: exact (R12 keyword
                 #                          clause), non-zero after the == test
             if a in pts and b in dus:
-                return a if b == "Z" else "D"
+                return a if b in ("Z", "Zt") else "D"
             if a in dus and b in pts:
-                return b if a == "Z" else "D"
+                return b if a in ("Z", "Zt") else "D"
             if a in dus:
                 return a                 # duration * n, duration +- x
             if b in dus:
@@ -147,19 +147,21 @@ class RecPlugin(Plugin):
             if isinstance(op, (ast.LtE, ast.Lt)) and isinstance(
                     rv, tuple) and rv[0] == "k" and lv in ("one", "many"):
                 return [], [d]           # repetitions > 0 (checked above it)
-            if rv == "Z" and lv in ("Z", "E", "M"):
+            if rv == "Z" and lv in ("Z", "Zt", "E", "M"):
+                # Z: every component zero; Zt: zero *length* spelled with
+                # cancelling components (P1DT-24H) - equal to P0Y but truthy
                 if isinstance(op, ast.Lt):
                     return [], [d]       # intervals are non-negative here
                 if isinstance(op, ast.Eq):
-                    return ([d], []) if lv == "Z" else ([], [d])
+                    return ([d], []) if lv in ("Z", "Zt") else ([], [d])
                 if isinstance(op, ast.NotEq):
-                    return ([], [d]) if lv == "Z" else ([d], [])
+                    return ([], [d]) if lv in ("Z", "Zt") else ([d], [])
             if isinstance(rv, tuple) and rv[0] == "k" and isinstance(
                     lv, tuple) and lv[0] == "k" and isinstance(
                         op, (ast.Eq, ast.NotEq)):
                 res = (lv[1] == rv[1]) == isinstance(op, ast.Eq)
                 return ([d], []) if res else ([], [d])
-            pts = ("G", "D", "St")
+            pts = ("G", "Gs", "Ge", "D", "St")
             if lv in pts and rv in pts:
                 if getattr(self, "points_distinct", False):
                     # the two points are a start and a later second point
@@ -183,7 +185,8 @@ class RecPlugin(Plugin):
             v = val(test)
             if v in (NONE, "Z") or v is False:
                 return [], [d]
-            if v in ("E", "M", "G", "D", "one", "many") or v is True:
+            if v in ("E", "M", "Zt", "G", "Gs", "Ge", "D", "one", "many") \
+                    or v is True:
                 return [d], []
             if v == "St":
                 return [dict(d)], [dict(d)]
@@ -259,8 +262,8 @@ def rec_states(ctx):
     logs = []
     raised_for = []
     for reps, sp, ep, du in itertools.product(
-            [NONE, "one", "many"], [NONE, "G"], [NONE, "G"],
-            [NONE, "Z", "E", "M"]):
+            [NONE, "one", "many"], [NONE, "Gs"], [NONE, "Ge"],
+            [NONE, "Z", "Zt", "E", "M"]):
         shape = {"repetitions": reps, "start_point": sp, "end_point": ep,
                  "duration": du, "min_point": NONE, "max_point": NONE}
         outs, raised, log = _ctor_post_states(ctx, init, shape)
@@ -294,11 +297,30 @@ def r18_rec_state(ctx):
             "recurrence with no start and no end point (R1/None/None)" % src,
             P14 + P12)
         rep.check(
-            not (du in (NONE, "Z") and reps != "one"), rule,
+            not (du in (NONE, "Z", "Zt") and reps != "one"), rule,
             key + ":single-point-reps", init.loc(),
-            "no interval implies exactly one repetition",
+            "no (or a zero-length) interval implies exactly one repetition",
+            "the constructor keeps a zero-length interval (%s; e.g. "
+            "P1DT-24H, which equals P0Y but is truthy) with repetitions %s: "
+            "iteration never advances" % (du, reps) if du == "Zt" else
             "post-state has interval %s but repetitions %s" % (du, reps),
             P12)
+        for src_reps, src_sp, src_ep, src_du in post[t]:
+            if src_sp == "Gs" and sp != "Gs":
+                rep.violation(
+                    rule, key + ":given-start-kept", init.loc(),
+                    "given (repetitions=%s, start, end=%s, interval=%s) the "
+                    "constructor replaces the given start point by %s: the "
+                    "series no longer starts at (a one-point series is no "
+                    "longer) its start anchor" % (src_reps, src_ep, src_du,
+                                                  sp), P12 + P14)
+                break
+            if fmt == ("k", 4) and src_ep == "Ge" and ep != "Ge":
+                rep.violation(
+                    rule, key + ":given-end-kept", init.loc(),
+                    "a duration/end recurrence replaces its given end "
+                    "point by %s" % ep, P12 + P14)
+                break
         if fmt == ("k", 1):
             rep.check(sec != NONE, rule, key + ":second-point", init.loc(),
                       "notation 1 keeps its second point",
@@ -339,7 +361,7 @@ def r18_rec_state(ctx):
         single = reps == "one" or du in (NONE, "Z")
         if single:
             good = all(len(ys) <= 1 for ys in seqs) and all(
-                y in ("G", "D") for ys in seqs for y in ys) and any(
+                y in ("Gs", "Ge", "D") for ys in seqs for y in ys) and any(
                     len(ys) == 1 for ys in seqs)
             rep.check(good, rule, key + ":single-point", it.loc(),
                       "a single-point recurrence yields its anchor at most "
@@ -359,14 +381,16 @@ def r18_rec_state(ctx):
                   "walk direction/stepping is inconsistent: steps %s for a "
                   "recurrence whose start is %s" % (sorted(dirs), sp), P12)
         # (i) first yielded point is the given anchor
-        bad_first = {v for v in first_vals if v != "G" and not (
+        want_first = "Ge" if want_rev else "Gs"
+        bad_first = {v for v in first_vals if v != want_first and not (
             v == "D" and du == "E")}
         rep.check(
             not bad_first and bool(first_vals), rule,
             key + ":first-yield=" + "/".join(sorted(first_vals)), it.loc(),
-            "iteration starts at %s" % ("the given anchor" if first_vals ==
-                                        {"G"} else "an anchor equivalent to "
-                                        "the given one (exact interval)"),
+            "iteration starts at %s" % ("the given anchor" if first_vals <=
+                                        {"Gs", "Ge"} else "an anchor "
+                                        "equivalent to the given one (exact "
+                                        "interval)"),
             "iteration of a %s recurrence with a possibly nominal interval "
             "starts at the *derived* %s point: start + d*(n-1) and n-1 "
             "repeated additions differ for month/year intervals, so the "
@@ -422,8 +446,9 @@ def r18_rec_state(ctx):
                 continue
             kw = dict(c[1])
             unshifted = [k for k in ("start_point", "end_point")
-                         if kw.get(k, NONE) in ("G", "D")]
-            kw = {k: ("G" if v == "Gs" else v) for k, v in kw.items()}
+                         if kw.get(k, NONE) in ("G", "Gs", "Ge", "D")]
+            kw = {k: (("Gs" if k == "start_point" else "Ge")
+                      if v == "Gsh" else v) for k, v in kw.items()}
             shape = {"repetitions": kw.get("repetitions", NONE),
                      "start_point": kw.get("start_point", NONE),
                      "end_point": kw.get("end_point", NONE),
@@ -434,8 +459,8 @@ def r18_rec_state(ctx):
                     rep.violation(rule, key + ":drops-" + k, add.loc(),
                                   "r + d does not pass %s on" % k, P14)
             bad_kw = [k for k, v in shape.items() if v == "?"]
-            distinct = (du == "E" and shape["start_point"] == "G" and
-                        shape["end_point"] == "G" and
+            distinct = (du == "E" and shape["start_point"] == "Gs" and
+                        shape["end_point"] == "Ge" and
                         shape["duration"] == NONE)
             outs, raised, log = _ctor_post_states(ctx, init, shape, distinct)
             problems = []
@@ -463,7 +488,7 @@ def r18_rec_state(ctx):
                     problems.append("interval %s -> %s" % (du, odu))
                 # the anchors the caller gave must be the ones shifted
                 for nm, a, b in (("start", sp, osp), ("end", ep, oep)):
-                    if a == "G" and b == "D" and odu == "M":
+                    if a in ("Gs", "Ge") and b == "D" and odu == "M":
                         problems.append(
                             "given %s point is re-derived after the shift"
                             % nm)
@@ -520,8 +545,8 @@ class _AddPlugin(RecPlugin):
                 if pt == NONE:
                     self.log.append(("none-arith", e.lineno, U(e)))
                     return "?"
-                if pt in ("G", "D"):
-                    return "Gs"
+                if pt in ("G", "Gs", "Ge", "D"):
+                    return "Gsh"
             return super().eval(e, d)
         if isinstance(e, ast.Call):
             fn = U(e.func)
